@@ -180,7 +180,7 @@ def evaluate(case):
             md = mc["module"].get("moddoc")
             if md and md["lines"] and k % 2 == 0 and case.get("prior") is not None:
                 # characters str.splitlines() would break on, inside a module doc line
-                md["lines"] = list(md["lines"]) + ["Form\x0cfeed #and [more", "nel\x85 ]x ls\u2028 #y"]
+                md["lines"] = list(md["lines"]) + ["", "Form\x0cfeed #and [more", "", "", "nel\x85 ]x ls\u2028 #y"]
         for rel, mc in files:
             p = os.path.join(inp, rel)
             os.makedirs(os.path.dirname(p), exist_ok=True)
